@@ -2,8 +2,12 @@
 //! Data sets are made from SLURM prefix assertions and installed through the public
 //! `SharedHistory::update`; `verif_init_at` (hook) places the serial anywhere in the 32-bit space.
 use routinator::config::Config;
-use routinator::metrics::Metrics;
-use routinator::payload::{PayloadSnapshot, SharedHistory, ValidationReport};
+use routinator::metrics::{Metrics, TalMetrics};
+use routinator::payload::{PayloadSnapshot, PublishInfo, SharedHistory, ValidationReport};
+use rpki::repository::tal::TalInfo;
+use rpki::repository::x509::{Time, Validity};
+use rpki::resources::asn::{Asn, SmallAsnSet};
+use std::sync::Arc;
 use routinator::slurm::LocalExceptions;
 use rpki::rtr::server::{PayloadDiff, PayloadSet, PayloadSource};
 use rpki::rtr::{Serial, State};
@@ -24,6 +28,28 @@ fn slurm_of(spec: &Value) -> LocalExceptions {
     LocalExceptions::from_json(&j.to_string(), false).expect("slurm")
 }
 
+/// The validation report of a data set: its ASPAs (SLURM cannot assert them) as one publication point through the
+/// hook `ValidationReport::verif_push_point`; route origins come from `slurm_of`.
+fn report_of(spec: &Value, config: &Config) -> ValidationReport {
+    let report = ValidationReport::new(config);
+    let e = vec![];
+    let aspas: Vec<(Asn, SmallAsnSet)> = spec["aspas"].as_array().unwrap_or(&e).iter().map(|a| {
+        let mut ps: Vec<u32> = a[1].as_array().unwrap().iter().map(|x| x.as_u64().unwrap() as u32).collect();
+        ps.sort(); ps.dedup();
+        (Asn::from_u32(a[0].as_u64().unwrap() as u32), unsafe { SmallAsnSet::from_vec_unchecked(ps.into_iter().map(Asn::from_u32).collect()) })
+    }).collect();
+    if !aspas.is_empty() {
+        let info = Arc::new(PublishInfo {
+            tal: Arc::new(TalInfo::from_name("t".into())), uri: None,
+            roa_validity: Validity::new(Time::utc(2020, 1, 1, 0, 0, 0), Time::utc(2040, 1, 1, 0, 0, 0)),
+            chain_validity: Validity::new(Time::utc(2020, 1, 1, 0, 0, 0), Time::utc(2040, 1, 1, 0, 0, 0)),
+            point_stale: Time::utc(2040, 1, 1, 0, 0, 0),
+        });
+        report.verif_push_point(0, Time::utc(2039, 1, 1, 0, 0, 0), Vec::new(), Vec::new(), aspas, info);
+    }
+    report
+}
+
 fn origins_only(u: &Universe, rng: &mut Rng, num: u64, den: u64) -> Value {
     let mut s = u.snap(rng, num, den);
     s["keys"] = json!([]);
@@ -37,7 +63,9 @@ fn gen(rng: &mut Rng, tier: &str) -> Vec<(String, Value)> {
     let bases: [u64; 8] = [0, 1, 5, 0x7FFF_FFFD, 0x8000_0000, 0xFFFF_FFFB, 0xFFFF_FFFE, 0xFFFF_FFFF];
     for i in 0..n {
         let mut r = rng.fork();
-        let u = Universe::new(&mut r, 3 + (i % 5), 0, 1);
+        // every fourth case: data sets with ASPAs (a change of the provider set alone is a change of the data set)
+        let with_aspas = i % 4 == 3;
+        let u = Universe::new(&mut r, 3 + (i % 5), 0, if with_aspas { 3 } else { 1 });
         let keep = *r.pick(&[0u64, 1, 1, 2, 2, 3, 5, 10]);
         let init = if i % 3 == 0 { Value::Null } else {
             let first = origins_only(&u, &mut r, 1, 2);
@@ -50,18 +78,27 @@ fn gen(rng: &mut Rng, tier: &str) -> Vec<(String, Value)> {
         let nupd = r.range(0, 9);
         let mut updates = Vec::new();
         let mut prev = if init.is_null() { origins_only(&u, &mut r, 1, 2) } else { init["second"].clone() };
+        if with_aspas { let mut s = u.snap(&mut r, 2, 3); s["keys"] = json!([]); s["origins"] = prev["origins"].clone(); prev = s; }
+        let mut first_update = with_aspas;
         for _ in 0..nupd {
-            let next = match r.below(6) {
+            let next = if first_update { first_update = false; prev.clone() } else { match r.below(if with_aspas { 8 } else { 6 }) {
                 0 => prev.clone(),                                   // no change
-                1 => origins_only(&u, &mut r, 1, 2),
-                _ => { let mut m = u.mutate(&mut r, &prev); m["keys"] = json!([]); m["aspas"] = json!([]); m }
-            };
+                1 => { let mut s = origins_only(&u, &mut r, 1, 2); if with_aspas { s["aspas"] = prev["aspas"].clone(); } s }
+                6 | 7 => {
+                    // nothing but the provider set of one ASPA changes (or, without ASPAs, nothing at all)
+                    let mut m = prev.clone();
+                    let n = m["aspas"].as_array().map(|a| a.len()).unwrap_or(0);
+                    if n > 0 { let k = r.below(n as u64) as usize; m["aspas"][k][1] = json!(u.provs(&mut r)); }
+                    m
+                }
+                _ => { let mut m = u.mutate(&mut r, &prev); m["keys"] = json!([]); if !with_aspas { m["aspas"] = json!([]); } m }
+            } };
             updates.push(next.clone());
             prev = next;
         }
         // queries: every boundary class relative to the final serial is added in run(); here random extras
         let extra: Vec<u64> = (0..3).map(|_| r.next() & 0xFFFF_FFFF).collect();
-        let class = format!("keep{}.{}", keep, if init.is_null() { "from0" } else { "wrap" });
+        let class = format!("keep{}.{}{}", keep, if init.is_null() { "from0" } else { "wrap" }, if with_aspas { ".aspas" } else { "" });
         cases.push((class, json!({"keep": keep, "init": init, "updates": updates, "extra_queries": extra})));
     }
     cases
@@ -82,6 +119,7 @@ fn run(input: &Value) -> CaseOut {
     let mut config = Config::default_with_paths(Default::default(), dir);
     let keep = input["keep"].as_u64().unwrap();
     config.history_size = keep as usize;
+    config.enable_aspa = true;
     let hist = SharedHistory::from_config(&config);
     // all data sets of the case, for the rank encoding
     let mut specs: Vec<Value> = Vec::new();
@@ -102,7 +140,10 @@ fn run(input: &Value) -> CaseOut {
     }
     let mut upd_obs = Vec::new();
     for spec in &specs[k..] {
-        let changed = hist.update(ValidationReport::new(&config), &slurm_of(spec), Metrics::default());
+        // the report's publication point refers to TAL 0: the metrics need an entry for it
+        let mut metrics = Metrics::default();
+        metrics.tals = vec![TalMetrics::new(Arc::new(TalInfo::from_name("t".into())))];
+        let changed = hist.update(report_of(spec, &config), &slurm_of(spec), metrics);
         let st = hist.notify();
         upd_obs.push((changed, u32::from(st.serial()), hist.verif_delta_count()));
     }
@@ -113,10 +154,11 @@ fn run(input: &Value) -> CaseOut {
     let (fst, fset) = hist.full();
     let full_items = collect_set(fset);
     let full_ok = fst.session() == sess && u32::from(fst.serial()) == cur;
-    let full_coq = format!("{{| origins := {}; rkeys := []; aspas := [] |}}", coq_list(full_items.iter(), |p| match p {
-        rpki::rtr::payload::Payload::Origin(o) => format!("({},tt)", r.origin(o)),
-        _ => "(777777777,tt)".into(),
-    }));
+    let full_coq = format!("{{| origins := {}; rkeys := {}; aspas := {} |}}",
+        coq_list(full_items.iter().filter_map(|p| match p { rpki::rtr::payload::Payload::Origin(o) => Some(format!("({},tt)", r.origin(o))), _ => None }), |x| x),
+        coq_list(full_items.iter().filter_map(|p| match p { rpki::rtr::payload::Payload::RouterKey(k) => Some(format!("({},tt)", r.key(k))), _ => None }), |x| x),
+        coq_list(full_items.iter().filter_map(|p| match p { rpki::rtr::payload::Payload::Aspa(a) =>
+            Some(format!("({},{})", a.customer.into_u32(), coq_nlist(a.providers.iter().map(|x| x.into_u32())))), _ => None }), |x| x));
     // queries: boundary classes relative to the current serial + extras
     let mut qs: Vec<(bool, u32)> = Vec::new();
     let half = 0x8000_0000u32;
@@ -136,8 +178,8 @@ fn run(input: &Value) -> CaseOut {
             Some((st2, mut diff)) => {
                 let mut acts = Vec::new();
                 while let Some((p, a)) = diff.next() {
-                    let k = match p { rpki::rtr::payload::PayloadRef::Origin(o) => r.origin(&o), _ => 777_777_777 };
-                    acts.push((k, a.is_withdraw()));
+                    // the oracle and the model compare the route origin part of a change set; ASPA items are skipped
+                    if let rpki::rtr::payload::PayloadRef::Origin(o) = p { acts.push((r.origin(&o), a.is_withdraw())); }
                 }
                 let tag_ok = st2.session() == sess;
                 ans_json.push(json!({"own": own, "serial": c, "answer": {"tag": u32::from(st2.serial()), "session_ok": tag_ok, "actions": acts}}));
